@@ -1265,6 +1265,8 @@ def t_wrap_dependent():
 
         def py_getattr(self, I, name):
             if name == "args":
+                if not I.branch(self.h.has_positional):
+                    return []  # a method with keyword-only parameters only
                 return ["self" if I.branch(self.h.first_is_self) else "x"]
             raise OutOfSubset(name)
 
@@ -1282,6 +1284,7 @@ def t_wrap_dependent():
         def __init__(self, I, n):
             self.n = n
             self.first_is_self = I.fresh(f"first_is_self_{n}", z3.BoolSort())
+            self.has_positional = I.fresh(f"has_positional_{n}", z3.BoolSort())
 
     class Self(SymObj):
         def __init__(self, tt):
@@ -1311,7 +1314,11 @@ def t_wrap_dependent():
         tup = (TyV(z3.Const("cls_0", TyS)), ("k", TyV(z3.Const("cls_1", TyS))))
         group = ["cand0", "cand1"]
         nxt = ("next_callable", ["code"])
-        r = I.call_repo("typemap:MultiTypeMap.wrap_dependent", [slf, tup, list(hs), group, nxt], {})
+        try:
+            r = I.call_repo("typemap:MultiTypeMap.wrap_dependent", [slf, tup, list(hs), group, nxt], {})
+        except PyRaise as e:
+            I.require(False, f"first_handler_without_positional_parameter.no_{e.exc.cls}")
+            return
         I.require(len(calls) == 1 and r is calls[0], "returns_the_dispatcher_generated_by_this_call")
         if len(calls) == 1:
             a, kw = calls[0].args
